@@ -16,14 +16,14 @@
         spec fn spec_pad(len: usize) -> Seq<u8>;
 
         //@ fn src:zvt_builder/src/length.rs | trait Length | serialize | sig props=C16,C03
-        //@ tag len.ser.exact C16 C03
+        //@ tag len.ser.exact C16 C03 ~C01
             requires Self::wf(), Self::ser_ok(len),
             ensures r@ =~= Self::spec_ser(len),
         //@ end
         //@ fn src:zvt_builder/src/length.rs | trait Length | deserialize | sig props=C02,C16
             requires Self::wf(),
             ensures
-        //@ tag len.deser.ok C16 C14
+        //@ tag len.deser.ok C16 C14 ~C01
                 Self::spec_deser(bytes@) matches Some((n, k)) ==> (r matches Ok((n2, rest)) && n2 == n && 0 <= k <= bytes@.len() && rest@ =~= bytes@.skip(k)),
         //@ tag len.deser.err C16 C02
                 Self::spec_deser(bytes@) is None ==> r is Err,
